@@ -7,6 +7,14 @@ import (
 
 // extraChecks runs property-specific non-SMT checks (exhaustive evaluation of
 // closed facts, assembly obligations, call-graph obligations).
+// preSolveChecks adds obligations that go through the SMT portfolio but are not
+// generated from Go SSA (assembly kernels).
+func (cr *checkRun) preSolveChecks() {
+	if cr.prop == "C09" {
+		cr.asmChecks()
+	}
+}
+
 func (cr *checkRun) extraChecks(verif string) {
 	cr.evalLemmaChecks()
 	writers := []string{"io/ioutil.WriteFile", "os.WriteFile", "os.Create", "os.OpenFile", "os.Remove", "os.Rename", "os.Mkdir", "os.Truncate", "os.Chmod", "os.Symlink", "os.Link", "(*os.File).Write"}
